@@ -7,6 +7,12 @@ from vlib import *
 tier = tier_arg()
 R = Result("C20", tier, "exploration")
 g = Garble(name="c20")
+# `garble -debug` output is cached by cmd/go together with the compile results and replayed to later builds:
+# keep it out of the shared caches by working on a private hard-linked clone
+from caches import fast_clone
+fast_clone(shared_gocache(), os.path.join(g.root, "gocache"))
+fast_clone(shared_garblecache(), os.path.join(g.root, "garblecache"))
+g.gocache, g.garblecache = os.path.join(g.root, "gocache"), os.path.join(g.root, "garblecache")
 hb = build_hooked()
 
 # ---- flag universe and boolean-ness, probed from the real go binary
